@@ -296,17 +296,21 @@ inline nano::vector_t to_vector(const std::vector<double>& v)
     return x;
 }
 
-// fills the quadratic specification; `max_log10_kappa` = 3 inside the domain of part A
-inline void gen_spec(spec_t& c, double max_log10_kappa)
+// fills the quadratic specification; `max_log10_kappa` = 3 inside the domain of part A;
+// `hard_percent` of the specifications come from the region that costs the solvers most evaluations
+// (measured: n >= 12, kappa at its maximum for L-BFGS, curvature scale 1e-3 for BFGS)
+inline void gen_spec(spec_t& c, double max_log10_kappa, int hard_percent = 0)
 {
+    const bool hard = hard_percent > 0 && *gen::chance(hard_percent);
     // dimensions: all of 1..16, extra mass on the ends
-    c.n = *rc::gen::oneOf(gen::range<int>(1, 16), gen::range<int>(1, 16), gen::range<int>(9, 16), rc::gen::element(1, 2, 3, 16));
+    c.n = hard ? *gen::range<int>(12, 16)
+               : *rc::gen::oneOf(gen::range<int>(1, 16), gen::range<int>(1, 16), gen::range<int>(9, 16), rc::gen::element(1, 2, 3, 16));
     // kappa: 30 % exactly the maximum, 5 % exactly 1, the rest log-uniform
-    const int kk = *gen::range<int>(0, 19);
+    const int kk = hard ? *gen::range<int>(0, 7) : *gen::range<int>(0, 19);
     c.kappa      = kk < 6 ? std::pow(10.0, max_log10_kappa) : kk == 6 ? 1.0 : std::pow(10.0, *gen::real(0.0, max_log10_kappa));
     // s: 10 % on each end
-    const int sk = *gen::range<int>(0, 9);
-    c.s          = sk == 0 ? 1e-3 : sk == 1 ? 1e3 : std::pow(10.0, *gen::real(-3.0, 3.0));
+    const int sk = hard ? *gen::range<int>(-4, 3) : *gen::range<int>(0, 9);
+    c.s          = sk <= 0 ? 1e-3 : sk == 1 ? 1e3 : std::pow(10.0, *gen::real(-3.0, 3.0));
     c.s          = std::min(1e3, std::max(1e-3, c.s));
     c.kappa      = std::min(std::pow(10.0, max_log10_kappa), std::max(1.0, c.kappa));
     c.layout     = *gen::range<int>(0, 2);
